@@ -384,3 +384,58 @@ Theorem C09_feerate_estimate_is_source :
     TxUtilGen.gen_estimate_feerate_per_kw prof fee w = Val (CommitmentPolicy.estimate_feerate_per_kw fee w).
 Proof. exact TxUtilGenProofs.gen_estimate_is_model. Qed.
 Print Assumptions C09_feerate_estimate_is_source.
+
+(** The three sweep validators modelled above are the ones in the source.  Gen/SweepGen.v is the
+    statement-by-statement translation (tools/gen_rustfn.py, regenerated on every run) of
+    SimpleValidator::validate_sweep (version, then every output: wallet error, spendable by the
+    wallet under the path, allowlisted, else policy-sweep-destination-allowlisted through the filter),
+    ::validate_delayed_sweep and ::validate_justice_sweep (whole bodies: the common validation, the
+    lock time against current_height + MAX_CHAIN_LAG, the sequence of the input being signed against
+    the counterparty-selected delay resp. NON_ANCHOR_SEQS), with MAX_CHAIN_LAG and the sequence sets
+    read from the file.  What lives outside the validator is a parameter of the translation and is
+    instantiated here with the model's reading of it: the wallet's answers ([spend_fn], [allow_fn] of
+    the model's wallet), and rust-bitcoin's Version::TWO = 2, Time::MIN, Height::from_consensus
+    ([height_fn]: a height below 500000000) and LockTime::is_satisfied_by.  For every model
+    transaction (as the source-level transaction [conc_tx t]), wallet, filter and both build profiles
+    the generated function answers what the model answers, panics included.  transaction_format_err!
+    ignores its tag argument: the four format classes of the model (version, locktime, sequence,
+    other) are one tag in the source ([err_tag], via [of_sres]); the two policy errors keep theirs.
+    Not translated: validate_counterparty_htlc_sweep (an i64 expiry from the script parser and
+    `if let Ok((..)) = ..` chains are outside the translator's fragment); it stays tied by the
+    correspondence check only. *)
+From Coq Require String.
+From VLS Require Gen.CommitmentPolicyGen Gen.SweepGen Proofs.SweepGenProofs.
+
+Theorem C09_sweep_rules_are_source :
+  forall (prof : profile) (swarn : String.string -> bool) (w : wallet) (wid : N) (t : tx)
+         (input amount path : N),
+    SweepGen.gen_validate_sweep prof swarn 2 (SweepGenProofs.spend_fn w) (SweepGenProofs.allow_fn w) wid
+      (SweepGenProofs.conc_tx t) input amount path =
+    SweepGenProofs.of_sres (validate_sweep (SweepGenProofs.sfilter swarn) w t path).
+Proof. exact SweepGenProofs.gen_sweep_is_model. Qed.
+Print Assumptions C09_sweep_rules_are_source.
+
+Theorem C09_delayed_sweep_rules_are_source :
+  forall (prof : profile) (swarn : String.string -> bool) (w : wallet) (wid : N)
+         (gs : CommitmentPolicyGen.ChannelSetup) (gcs : CommitmentPolicyGen.ChainState) (t : tx)
+         (input amount path : N),
+    SweepGen.gen_validate_delayed_sweep prof swarn 2 (SweepGenProofs.spend_fn w) (SweepGenProofs.allow_fn w)
+      SweepGenProofs.height_fn TIME_MIN is_satisfied_by wid gs gcs (SweepGenProofs.conc_tx t) input amount path =
+    SweepGenProofs.of_sres
+      (validate_delayed_sweep SignedInput prof (SweepGenProofs.sfilter swarn) w
+         (CommitmentPolicyGen.ChannelSetup_counterparty_selected_contest_delay gs)
+         (CommitmentPolicyGen.ChainState_current_height gcs) t input path).
+Proof. exact SweepGenProofs.gen_delayed_sweep_is_model. Qed.
+Print Assumptions C09_delayed_sweep_rules_are_source.
+
+Theorem C09_justice_sweep_rules_are_source :
+  forall (prof : profile) (swarn : String.string -> bool) (w : wallet) (wid : N)
+         (gs : CommitmentPolicyGen.ChannelSetup) (gcs : CommitmentPolicyGen.ChainState) (t : tx)
+         (input amount path : N),
+    SweepGen.gen_validate_justice_sweep prof swarn 2 (SweepGenProofs.spend_fn w) (SweepGenProofs.allow_fn w)
+      SweepGenProofs.height_fn TIME_MIN is_satisfied_by wid gs gcs (SweepGenProofs.conc_tx t) input amount path =
+    SweepGenProofs.of_sres
+      (validate_justice_sweep SignedInput prof (SweepGenProofs.sfilter swarn) w
+         (CommitmentPolicyGen.ChainState_current_height gcs) t input path).
+Proof. exact SweepGenProofs.gen_justice_sweep_is_model. Qed.
+Print Assumptions C09_justice_sweep_rules_are_source.
